@@ -6,7 +6,8 @@ import asyncio
 import random
 
 from xknx.core import XknxConnectionState
-from xknx.devices import BinarySensor, Sensor, Switch
+from xknx.devices import BinarySensor, Device, Sensor, Switch
+from xknx.remote_value import RemoteValueSwitch
 from xknx.dpt import DPTArray, DPTBinary
 from xknx.telegram import Telegram
 from xknx.telegram.address import GroupAddress
@@ -14,6 +15,9 @@ from xknx.telegram.apci import GroupValueRead, GroupValueResponse, GroupValueWri
 
 from vlib.core_harness import (
     CONNECTED,
+    OK,
+    Outcome,
+    queue_outgoing,
     bounded,
     fake,
     inject_incoming,
@@ -36,8 +40,9 @@ LEVEL_TEXT = (
     "tracker intervals and the 2 s reader timeout including exact timer ties. Exploration: histories are sampled."
 )
 LEVEL_NOTE = (
-    "Trusted: the virtual loop. Windows, not instants: SLACK = 2 s x (trackers + 1) + 0.1 s covers the 2 s reader timeout and the queue "
-    "behind the two-read semaphore. Judged per connection period of a registered tracker: the first read comes within SLACK (an 'expire' "
+    "Trusted: the virtual loop. Windows, not instants: SLACK = (2 s + longest busy stretch of the outgoing queue) x (trackers + 1) + 0.1 s "
+    "covers the 2 s reader timeout, the queue behind the two-read semaphore and the wait for a busy outgoing queue (slow interface, "
+    "bursts). A state telegram whose device callback raises still is a state update (the value was stored). Judged per connection period of a registered tracker: the first read comes within SLACK (an 'expire' "
     "tracker may have it replaced by a state update); init: never a second read; expire: every later read >= interval after the last state "
     "update/read of that value, and none missing for interval+SLACK; every: later reads interval..interval+SLACK apart; no read put on the "
     "queue while the state is not CONNECTED, for an unregistered / sync_state=False value, or after stop(); unanswered reads younger than "
@@ -74,13 +79,14 @@ def gen_case(rng: random.Random) -> dict:
     n = rng.randint(2, 6)
     devs = []
     for i in range(n):
-        kind = rng.choice(("switch", "switch", "sensor", "binary"))
+        kind = rng.choice(("switch", "switch", "sensor", "binary", "raising"))
         devs.append({"kind": kind, "option": rng.choice(OPTIONS), "state_addr": f"1/1/{i + 1}", "write_addr": f"1/0/{i + 1}",
                      "bus": rng.choice((0.05, 0.5, 1.9, None, None)), "initial": rng.random() < 0.7})
     ops = []
     dts = (0.0, 0.0, 0.5, 1.9, 2.0, 2.1, 10.0, 30.0, 58.0, 59.0, 60.0, 61.0, 100.0, 119.0, 120.0, 121.0, 125.0, 200.0, 1800.0)
     for _ in range(rng.randint(12, 45)):
-        k = rng.choices(("state", "update", "set", "add", "remove", "bus", "wait"), (22, 22, 8, 8, 8, 6, 26))[0]
+        k = rng.choices(("state", "update", "set", "add", "remove", "bus", "wait", "burst", "busy_flap", "busy_readd"),
+                        (22, 22, 8, 8, 8, 6, 22, 4, 3, 3))[0]
         op = {"dt": rng.choice(dts), "op": k, "dev": rng.randrange(n)}
         if k == "state":
             op["state"] = rng.choice(("CONNECTED", "CONNECTED", "CONNECTED", "DISCONNECTED", "CONNECTING"))
@@ -89,8 +95,29 @@ def gen_case(rng: random.Random) -> dict:
             op["response"] = rng.random() < 0.4
         elif k == "bus":
             op["bus"] = rng.choice((0.05, 0.5, 1.9, None))
+        elif k in ("burst", "busy_flap", "busy_readd"):
+            op["n"] = rng.randint(2, 4)
         ops.append(op)
-    return {"devs": devs, "ops": ops, "initial_connected": rng.random() < 0.7}
+    # a slow interface: every non-read telegram takes this long to send, so bursts keep the outgoing queue busy
+    return {"devs": devs, "ops": ops, "initial_connected": rng.random() < 0.7, "send_delay": rng.choice((0.0, 0.0, 0.5, 1.5))}
+
+
+class RaisingCallbackDevice(Device):
+    """User-defined device around one RemoteValueSwitch whose after_update callback raises."""
+
+    def __init__(self, xknx, name, group_address_state, sync_state) -> None:
+        super().__init__(xknx, name)
+        self.rv = RemoteValueSwitch(xknx, group_address_state=group_address_state, sync_state=sync_state,
+                                    device_name=name, after_update_cb=self._changed)
+
+    def _changed(self, _value) -> None:
+        raise ValueError("device callback failed")
+
+    def _iter_remote_values(self):  # type: ignore[override]
+        yield self.rv
+
+    def process_group_write(self, telegram) -> None:  # type: ignore[override]
+        self.rv.process(telegram)
 
 
 class EventLog(list):
@@ -117,6 +144,8 @@ class RecordingQueue(asyncio.Queue):
         if item is not None and isinstance(item.payload, GroupValueRead):
             self._events.append(("read", asyncio.get_running_loop().time(), str(item.destination_address),
                                  self._xknx.connection_manager.state))
+        elif item is not None and item.direction.name == "OUTGOING":
+            self._events.append(("output", asyncio.get_running_loop().time(), None))
         super().put_nowait(item)
 
 
@@ -127,7 +156,13 @@ def run_one(ctx, case_seed: str) -> None:
     info: dict = {"stalled": False}
 
     async def main(loop):
-        xknx = make_xknx(connect_on_start=case["initial_connected"])
+        def script(cemi, _index):
+            payload = getattr(cemi.data, "payload", None)
+            if case["send_delay"] and not isinstance(payload, GroupValueRead):
+                return Outcome(kind="slow", delay=case["send_delay"])
+            return OK
+
+        xknx = make_xknx(connect_on_start=case["initial_connected"], script=script)
         xknx.telegrams = RecordingQueue(xknx, events)
         iface = fake(xknx)
         bus = {d["state_addr"]: d["bus"] for d in case["devs"]}
@@ -137,13 +172,18 @@ def run_one(ctx, case_seed: str) -> None:
                 dev = Switch(xknx, f"dev{i}", group_address=d["write_addr"], group_address_state=d["state_addr"], sync_state=d["option"])
             elif d["kind"] == "sensor":
                 dev = Sensor(xknx, f"dev{i}", group_address_state=d["state_addr"], value_type="temperature", sync_state=d["option"])
+            elif d["kind"] == "raising":
+                dev = RaisingCallbackDevice(xknx, f"dev{i}", d["state_addr"], d["option"])
             else:
                 dev = BinarySensor(xknx, f"dev{i}", group_address_state=d["state_addr"], sync_state=d["option"])
             devices.append(dev)
         info["devices"] = devices
 
+        toggle = [0]
+
         def value_for(i):
-            return DPTArray((0x0C, 0x1A)) if case["devs"][i]["kind"] == "sensor" else DPTBinary(1)
+            toggle[0] ^= 1  # alternate, so that the value changes and the after_update callbacks fire every time
+            return DPTArray((0x0C, 0x1A + toggle[0])) if case["devs"][i]["kind"] == "sensor" else DPTBinary(toggle[0])
 
         def answer(addr):
             if xknx.connection_manager.state != CONNECTED:
@@ -161,6 +201,33 @@ def run_one(ctx, case_seed: str) -> None:
                     loop.call_later(bus[addr], answer, addr)
 
         iface.on_handoff.append(on_handoff)
+
+        def on_end(ho):
+            if ho.telegram is not None and not isinstance(ho.telegram.payload, GroupValueRead):
+                events.append(("outdone", loop.time(), None))
+
+        iface.on_handoff_end.append(on_end)
+
+        def do_state(new, t):
+            if new != xknx.connection_manager.state:
+                events.append(("op", t, "state", None, new))
+                set_state(xknx, new)
+
+        def do_add(i, t):
+            if i not in registered:
+                events.append(("op", t, "add", i, None))
+                xknx.devices.async_add(devices[i])
+                registered.add(i)
+
+        def do_remove(i, t):
+            if i in registered:
+                events.append(("op", t, "remove", i, None))
+                xknx.devices.async_remove(devices[i])
+                registered.discard(i)
+
+        def burst(n):
+            for _ in range(n):
+                queue_outgoing(xknx, Telegram(destination_address=GroupAddress("9/0/1"), payload=GroupValueWrite(DPTBinary(1))))
 
         def seen(telegram):
             # a value telegram is being processed: every ValueReader waiting on that address is answered now
@@ -188,9 +255,27 @@ def run_one(ctx, case_seed: str) -> None:
                 if new == CONNECTED and not op["dt"]:
                     await asyncio.sleep(0)  # establishing a connection needs I/O: never in the same loop turn as the loss
                     t = loop.time()
-                if new != xknx.connection_manager.state:
-                    events.append(("op", t, "state", None, new))
-                    set_state(xknx, new)
+                do_state(new, t)
+            elif k == "burst":
+                burst(op["n"])
+            elif k == "busy_flap":
+                # trackers (re)start and wait for a busy outgoing queue, then are cancelled by a loss, and start again
+                burst(op["n"])
+                do_state(XknxConnectionState.DISCONNECTED, loop.time())
+                await asyncio.sleep(0)
+                do_state(CONNECTED, loop.time())
+                await asyncio.sleep(0.2)
+                do_state(XknxConnectionState.DISCONNECTED, loop.time())
+                await asyncio.sleep(0)
+                do_state(CONNECTED, loop.time())
+            elif k == "busy_readd":
+                burst(op["n"])
+                do_remove(i, loop.time())
+                do_add(i, loop.time())
+                await asyncio.sleep(0.2)
+                do_remove(i, loop.time())
+                await asyncio.sleep(0)
+                do_add(i, loop.time())
             elif k == "update":
                 if xknx.connection_manager.state != CONNECTED:
                     continue
@@ -203,15 +288,9 @@ def run_one(ctx, case_seed: str) -> None:
                 if case["devs"][i]["kind"] == "switch" and i in registered:
                     await devices[i].set_on()
             elif k == "add":
-                if i not in registered:
-                    events.append(("op", t, "add", i, None))
-                    xknx.devices.async_add(devices[i])
-                    registered.add(i)
+                do_add(i, t)
             elif k == "remove":
-                if i in registered:
-                    events.append(("op", t, "remove", i, None))
-                    xknx.devices.async_remove(devices[i])
-                    registered.discard(i)
+                do_remove(i, t)
             elif k == "bus":
                 bus[case["devs"][i]["state_addr"]] = op["bus"]
         await asyncio.sleep(rng.choice((0.0, 5.0, 130.0)))
@@ -251,7 +330,24 @@ def run_one(ctx, case_seed: str) -> None:
 
 def judge(ctx, case, events, wit) -> None:
     ntrackers = sum(1 for d in case["devs"] if parse_option(d["option"]) is not None)
-    slack = READ_TIMEOUT * (ntrackers + 1) + 0.1
+    # longest stretch the outgoing queue was busy with other telegrams (a tracker waits for it to drain before it reads)
+    busy = 0
+    busy_since = None
+    longest_busy = 0.0
+    busy_at = []
+    for e in events:
+        busy_at.append(busy)
+        if e[0] == "output":
+            if busy == 0:
+                busy_since = e[1]
+            busy += 1
+        elif e[0] == "outdone" and busy:
+            busy -= 1
+            if busy == 0:
+                longest_busy = max(longest_busy, e[1] - busy_since)
+    if longest_busy > 0:
+        ctx.count("histories_with_busy_outgoing_queue")
+    slack = (READ_TIMEOUT + longest_busy) * (ntrackers + 1) + 0.1
     addr_of = {d["state_addr"]: i for i, d in enumerate(case["devs"])}
     merged = events  # one chronological list in execution order (ops, reads put, hand-offs, bus telegrams, processed state telegrams)
     t0 = 1000.0
@@ -342,11 +438,15 @@ def judge(ctx, case, events, wit) -> None:
                     stopped = True
                 else:
                     continue
+                if open_ and busy_at[ei] > 0 and what in ("state", "remove"):
+                    ctx.count("tracker_cancelled_while_outgoing_queue_busy")
                 reopen(t, why)
             elif e[0] == "update":
                 _, t, dev, _addr, _dirn = e
                 if dev != i or not open_:
                     continue
+                if d["kind"] == "raising":
+                    ctx.count("state_update_with_raising_device_callback")
                 if kind == "expire":
                     if first_pending:
                         if t - a > slack + EPS:
@@ -490,7 +590,8 @@ def run(ctx):
     ctx.require("reads_judged", "initial_read_within_slack", "expire_read_in_window", "every_read_in_window", "expire_timer_reset_by_update",
                 "expire_initial_read_replaced_by_update", "connection_lost_with_tracker_running", "periods_opened", "periods_closed",
                 "two_reads_in_flight", "trackers_init", "trackers_expire", "trackers_every", "trackers_none",
-                "init_tracker_read_exactly_once_in_last_period", "state_updates_processed")
+                "init_tracker_read_exactly_once_in_last_period", "state_updates_processed", "histories_with_busy_outgoing_queue",
+                "tracker_cancelled_while_outgoing_queue_busy", "state_update_with_raising_device_callback")
     n = ctx.scale(1000, 64000)
     for i in range(n):
         if ctx.mine(i):
